@@ -143,7 +143,7 @@ def body(c, stats: Stats):
 
 
 def shard(stats: Stats, shard_i, nshards, seed, tier):
-    n = {'quick': 500, 'thorough': 20000}[tier]
+    n = {'quick': 2000, 'thorough': 20000}[tier]   # quick raised from 500: three seeded changes (C06-b, -d, -f) were reported by only 1-2 of 16 shards
     common.run_given(stats, seed, n, cases(), body)
 
 
